@@ -541,6 +541,59 @@ def name_table_gate_rule(F, R, rid):
            "compile_bytecode translates whatever bytecode it is given, and the translator's handler lookup panics for an "
            "(opcode, argument count) without an entry: a script function using such a call form aborts the host when it is "
            "JIT-compiled", cb.loc(), sample={"gate": [g.short() for g, _ in gates]})
+    # ---- the per-arity helper families (Call…Definitions::arity_to_name(n) -> Option<&str>): a translator method that
+    # unwraps the lookup for a count taken from the instruction stream relies on the gate having consulted the same family
+    gate_fams = set()
+    for f, _ in gates + [(cb, [])]:
+        for _, b in f.calls():
+            m = re.search(r"\{impl (\w+)\}::arity_to_name$", b["callee"])
+            if m:
+                gate_fams.add(m.group(1))
+    live, _dead = live_translator(F)
+    nfam = 0
+    for f in live:
+        kv = kvmap(f)
+        for i, b in f.calls():
+            m = re.search(r"\{impl (\w+)\}::arity_to_name$", b["callee"])
+            if not m or not b["args"]:
+                continue
+            d = re.match(r"_\d+", b.get("dest") or "")
+            if not d:
+                continue
+            unwrapped = False
+            for j, b2 in f.calls():
+                if re.search(r"\{impl Option<T>\}::(unwrap|expect)$", b2["callee"]) and b2["args"]:
+                    for t in lib.TOK.findall(b2["args"][0]):
+                        if d.group(0) in (lib.alias_sources(f, t, depth=4) | {t}):
+                            unwrapped = True
+            if not unwrapped:
+                continue
+            cs = consts(f, kv, b["args"][0])
+            if any(x.startswith("const:") for x in cs):
+                continue
+            # a parameter whose every caller passes a constant is not taken from the instruction stream
+            arg_is_param_const = False
+            pm = re.match(r"^\(?\*?_(\d+)\)?$", b["args"][0])
+            if pm and 1 <= int(pm.group(1)) <= len(f.d.get("in") or []):
+                k = int(pm.group(1))
+                cl = _callers(F).get(f.name, [])
+                if cl and all(k - 1 < len(cb2["args"]) and any(x.startswith("const:") for x in consts(f2, kvmap(f2), cb2["args"][k - 1]))
+                              for f2, _, cb2 in cl):
+                    arg_is_param_const = True
+            if arg_is_param_const:
+                continue
+            # a method all of whose call sites sit behind a compile-time false condition (`&& false`) is not emitted
+            from . import shared as _shared
+            cl = _callers(F).get(f.name, [])
+            if cl and all(ci not in _shared.live_blocks(f2) for f2, ci, _ in cl):
+                continue
+            nfam += 1
+            R.inst(rid, "%s unwraps %s::arity_to_name(count): the gate consults the same family" % (f.short(), m.group(1)),
+                   m.group(1) in gate_fams,
+                   "%s unwraps %s::arity_to_name for an argument count taken from the instruction stream (line %s), but the gate "
+                   "in compile_bytecode does not ask that family: a function whose bytecode carries a count without a helper (e.g. "
+                   "a self tail call with 11 arguments in module code) aborts the host when it is JIT-compiled; with "
+                   "STEEL_JIT=false it runs" % (f.short(), m.group(1), b.get("line")), f.loc(b.get("line")), sample=True)
     for v in sorted(specific):
         R.inst(rid, "opcode %s: argument counts without a handler are rejected before translation" % v,
                v in gate_ops or not gates and False,
